@@ -277,12 +277,23 @@ def isNil : Val → Bool
   | .nil => true
   | _ => false
 
-/-- the OPTIONAL bitmap of a SEQUENCE: one bit per field tagged `optional`, set iff non-nil;
-    a nil pointer in a mandatory position is an error -/
+/-- the Go kinds `reflect.Value.IsNil` accepts among the types of a schema: pointers and slices
+    (`aper.OctetString` and `aper.ObjectIdentifier` are `[]byte`); on any other kind it traps -/
+def nillable : Ty → Bool
+  | .ptr _ => true
+  | .slice _ => true
+  | .octs => true
+  | .oid => true
+  | _ => false
+
+/-- the OPTIONAL bitmap of a SEQUENCE: one bit per field tagged `optional`, set iff non-nil
+    (`v.Field(i).IsNil()`: a trap when the field's type cannot be nil — found by the synthetic-schema
+    correspondence run); a nil pointer in a mandatory position is an error -/
 def optBitmap : List Field → List Val → Res Bits
   | [], _ => .ok []
   | f :: fs, v :: vs =>
     if f.params.optional then
+      if !(nillable f.ty) then panic else
       match optBitmap fs vs with
       | .error e => .error e
       | .ok b => .ok ((!(isNil v)) :: b)
